@@ -69,6 +69,15 @@ def run(ctx):
         for _k in range(2):
             t = "".join(r.choice(list("ab19 ") + list("|^\\~!@#")) for _ in range(r.choice([3, 8, 20])))
             cases.append((t.encode(enc), enc))
+    # many fields / components / repeats (manufacturer records, raw curves): positions far to the right stay positions
+    for _ in range(120 if ctx.thorough else 30):
+        enc = r.choice(codecio.ENCODINGS)
+        n = r.choice([40, 64, 65, 66, 67, 100, 128, 129, 257, 1000])
+        sep = r.choice(["|", "|", "^", "\\"])
+        items = [r.choice(["", "a", "7", "x^y", "ab"]) if sep == "|" else r.choice(["", "a", "7"]) for _k in range(n)]
+        t = ("M|" if sep != "|" else "") + sep.join(items)
+        cases.append((t.encode(enc), enc))
+        cases.append((("|" * n).encode(enc), enc))
     # undecodable bytes (error branch)
     for _ in range(300):
         enc = r.choice(["ascii", "utf-8", "cp1251"])
